@@ -49,17 +49,17 @@ type park struct {
 }
 
 type gsched struct {
-	mu        sync.Mutex
-	cond      *sync.Cond
-	parked    map[string]*park
-	roles     map[int64]string
-	vmidx     map[*ugo.VM]int
-	free      bool
-	events    []gateEv
-	nextChild int
-	newRole   string // role given to a goroutine seen for the first time
-	finished  map[string]bool
-	root      *ugo.VM
+	mu         sync.Mutex
+	cond       *sync.Cond
+	parked     map[string]*park
+	roles      map[int64]string
+	vmidx      map[*ugo.VM]int
+	free       bool
+	events     []gateEv
+	nextChild  int
+	newRole    string // role given to a goroutine seen for the first time
+	finished   map[string]bool
+	root       *ugo.VM
 	unexpected string
 }
 
@@ -390,18 +390,18 @@ func gk(v []any) gateKey {
 }
 
 type replayResult struct {
-	N          int      `json:"n"`
-	Steps      int      `json:"steps"`
-	Forced     int      `json:"forced"`
-	Mismatch   string   `json:"mismatch,omitempty"`
-	Verdict    string   `json:"verdict"` // ok | violation | drift | skipped
-	What       string   `json:"what,omitempty"`
-	RealRes    string   `json:"real_res"`
-	ModelRes   string   `json:"model_res"`
-	Sched      []string `json:"sched"`
-	Effective  bool     `json:"effective_abort"`
-	PostSteps  map[string]int `json:"post_steps,omitempty"`
-	FollowUp   string   `json:"followup,omitempty"`
+	N         int            `json:"n"`
+	Steps     int            `json:"steps"`
+	Forced    int            `json:"forced"`
+	Mismatch  string         `json:"mismatch,omitempty"`
+	Verdict   string         `json:"verdict"` // ok | violation | drift | skipped
+	What      string         `json:"what,omitempty"`
+	RealRes   string         `json:"real_res"`
+	ModelRes  string         `json:"model_res"`
+	Sched     []string       `json:"sched"`
+	Effective bool           `json:"effective_abort"`
+	PostSteps map[string]int `json:"post_steps,omitempty"`
+	FollowUp  string         `json:"followup,omitempty"`
 }
 
 func classify(err error) string {
